@@ -11,6 +11,8 @@ Section Sorted.
   Hypothesis cmp_anti : forall a b, cmp b a = - cmp a b.
   Hypothesis cmp_le_trans : forall a b c, cmp a b <= 0 -> cmp b c <= 0 -> cmp a c <= 0.
   Hypothesis cmp_eq_hit : forall a b, cmp a b = 0 -> hit a = hit b.
+  (* every lemma of the section takes (cmp, cmp_anti, cmp_le_trans, cmp_eq_hit), used or not *)
+  Set Default Proof Using "All".
 
   Definition lt (a b : dmatch) : Prop := cmp a b < 0.
 
